@@ -117,6 +117,9 @@ func mkC14(mode string, s spec.Spec, prop string, in string) c14Case {
 func allEntryPoints(p *bluemonday.Policy, in []byte) (pm string) {
 	defer func() {
 		if r := recover(); r != nil {
+			if _, isAbort := r.(stepAbort); isAbort {
+				panic(r) // the step budget, not a panic of the library: let underBudget see it
+			}
 			pm = fmt.Sprint(r)
 		}
 	}()
@@ -180,7 +183,21 @@ func runC14(c *run.Ctx) {
 		c.States++
 		for _, b := range []*built{&on, &ugc} {
 			c.Trace(func() string { return b.S.Name + "\n" + run.Q(string(in)) })
-			pm := allEntryPoints(b.P, in)
+			var pm string
+			if hooks.Available {
+				// under the (generous) step budget as well, so that a loop that never ends is a verdict and not a hang
+				_, ab, pm2 := underBudget(8*budgetFor(len(in))+100000, func() { pm = allEntryPoints(b.P, in) })
+				if pm2 != "" {
+					pm = pm2
+				}
+				if ab {
+					c.Violate("slow|entry", fmt.Sprintf("the entry points did not finish within %d steps on a %d-byte input; policy=%s input=%s", 8*budgetFor(len(in))+100000, len(in), b.S.Name, run.Q(string(in))), mkC14("html", b.S, "", string(in)))
+					c.Outcome("violation|slow-entry")
+					continue
+				}
+			} else {
+				pm = allEntryPoints(b.P, in)
+			}
 			c.Eval()
 			c.Transitions++
 			c.Traces++
@@ -200,6 +217,7 @@ func runC14(c *run.Ctx) {
 	extra := []string{`<img src=" http://e.x/a.png&#10;">`, `<img src="http://e.x/a b">`, `<a href=" http://e.x/ ">`, `<p style="color: \">`, `<p style="grid: auto auto auto @">`,
 		`<iframe src="%zz">`, `<img src="data:image/png;base64,iVBORw0KGgo=">`, `<img src="data:image/png;base64,iVBOR w0K&#10;Ggo=">`, `<source src="//e.x/\x00">`, `<my-x src="http://[::1">`}
 	extra = append(extra, `<a href="http://e.x/" rel="nofollowed noopenerx" target=_blank>`, `<a href=x rel="noreferrer-when-downgrade nofollow-ish">`, `<area href=x rel="no">`,
+		`<p style=" ">`, `<p style="">`, `<p style="  ;">`, `<span style="color: red\ ;">x</span>`, "<p style=\"color: red\\\t;\">", `<p style="color: \">`, `<p style="}">`,
 		`<p style="transform: q q q q">`, `<iframe sandbox="allow-formsx allow">`, `<b data-=1 data-x>`, `<img crossorigin>`)
 	SeqsS(c, "c14f", append(fragAll(), extra...), 0, kf, func(in []byte, _ []int) { entry(in) })
 	// the special alphabets of the other checks, in their contexts: attribute lists on link / media / generic elements, URL strings, style declarations
@@ -348,6 +366,11 @@ func replayC14(raw json.RawMessage) (bool, string) {
 	switch x.Mode {
 	case "entry":
 		b := build(x.Spec)
+		if hooks.Available {
+			var pm string
+			_, ab, pm2 := underBudget(8*budgetFor(len(in))+100000, func() { pm = allEntryPoints(b.P, []byte(in)) })
+			return ab || pm != "" || pm2 != "", fmt.Sprintf("aborted=%v panic=%q%q", ab, pm, pm2)
+		}
 		pm := allEntryPoints(b.P, []byte(in))
 		return pm != "", "panic: " + pm
 	case "handler":
